@@ -54,7 +54,7 @@ def run(tier):
         for pos in range(4):
             fx = [0, 0, 0, 0]
             fx[pos] = e
-            scen.append({"fx": fx, "rates": [256, 333], "loops": [True, False], "pans": [0, 1], "t": 256, "src": "grid",
+            scen.append({"fx": fx, "rates": [256, 333], "loops": [True, False], "pans": [2, 3], "gaps": [True, True], "t": 256, "src": "grid",
                          "cfgs": [{"b": 128, "part": "big"}, {"b": 1, "part": "ones"}, {"b": 7, "part": "primes"}, {"b": 4096, "part": "b1"}]})
     sp, tp = os.path.join(OUT, "c11", "scen.ndjson"), os.path.join(OUT, "c11", "trace.ndjson")
     write_ndjson(sp, scen)
@@ -63,7 +63,7 @@ def run(tier):
     judge(res, PROP, scen, tp, bad)
     res.evaluations = sum(len(s["cfgs"]) for s in scen)
     for s in scen:
-        res.distinct.add(behaviour_hash([s["fx"], s["rates"], s["loops"], s["pans"], s["cfgs"]]))
+        res.distinct.add(behaviour_hash([s["fx"], s["rates"], s["loops"], s["pans"], s.get("gaps"), s["cfgs"]]))
     res.samples = [{k: s[k] for k in ("fx", "rates", "loops", "pans", "cfgs", "src")} for s in scen[:1] + scen[-1:]]
     res.assumptions = ["constant parameters, no commands in flight", "f32 output compared bit for bit / at 1e-7 resolution"]
     return res.finish("scenario = scene (effects on main/tracks/send, sound rates, loops, panning) x 3-4 (internal buffer size, callback "
